@@ -570,3 +570,349 @@ Print Assumptions C06_wiring_StripeMeasures__cube_measures.
 
 End Wiring_C06.
 (* ---- WIRING-APPENDIX:END ---- *)
+
+(*BEGIN GenAgreeCube_C06*)
+(* ------------------------------------------------------------------------------------ *)
+(* SOURCE TEXT of src/cr/cube/cube.py.  Gen/CubeSrc.v is regenerated on every check by
+   harness/translate/x_cube.py (shallow translation: every member of CubeSet / Cube / _Measures / the
+   _BaseMeasure family, inheritance flattened, as a Gallina function over the Python-semantics combinators
+   of Base/PyList.v + Base/PyJson.v + Model/PyCube.v; [X] = what cube.py calls in other modules -
+   Dimensions.from_dicts, json.loads - as parameters; `self.<member>` = the generated function of that
+   member).  For ALL inputs each generated function IS the model definition the theorems above are about;
+   a statement `match src_f, src_g with Some f, Some g => forall .., g X c = POk v -> ..` reads: whenever
+   the member g of the same object evaluates to v.  [None] = the member is outside the translator's
+   whitelist (then only the correspondence ties it). *)
+From CC Require Proofs.GenAgreeCubeLib Proofs.GenAgreeCubeAugment Proofs.GenAgreeCubeBase Proofs.GenAgreeCubeDims Proofs.GenAgreeCubePartition Proofs.GenAgreeCubeRebuild Proofs.GenAgreeCubeSet.
+Section GenAgreeCube_C06.   (* scopes and imports below end with the section *)
+Import Coq.Lists.List Coq.ZArith.ZArith Coq.QArith.QArith Coq.Strings.String Coq.Bool.Bool CC.Base.XQ
+       CC.Base.PyList CC.Base.PyJson CC.Spec.Survey CC.Model.CubeCounts CC.Model.DimType CC.Model.Population
+       CC.Model.Partition CC.Model.PyCube CC.Gen.CubeSrc CC.Proofs.GenAgreeCubeLib CC.Proofs.GenAgreeCubeAugment CC.Proofs.GenAgreeCubeBase CC.Proofs.GenAgreeCubeDims CC.Proofs.GenAgreeCubePartition CC.Proofs.GenAgreeCubeRebuild CC.Proofs.GenAgreeCubeSet.
+Import Coq.Lists.List.ListNotations.
+Local Close Scope Q_scope.
+Local Open Scope Z_scope.
+Local Open Scope string_scope.
+
+Theorem C06_cube_aug_fill_model :
+  forall summary own n cs,
+  option_map float_of
+    (to_option (pbind (aug_values (map elem_json own)) (fun values =>
+                pbind (aug_positions (map elem_json summary) values) (fun positions =>
+                aug_fill (Z.of_nat n) positions (map JFloat cs)))))
+  = augment_counts summary own n cs.
+Proof. exact cube_aug_fill_model. Qed.
+Print Assumptions C06_cube_aug_fill_model.
+
+Theorem C06_cube_inflated_response_spec :
+  forall top res dimsj alias name,
+  exists top' res',
+    inflated_response top res dimsj alias name = JDict top' /\
+    dget top' "result" = Some (JDict res') /\
+    dget res' "dimensions" = Some (JList (rows_dimension_json alias name :: dimsj)) /\
+    (forall k, k <> "result" -> dget top' k = dget top k) /\
+    (forall k, k <> "dimensions" -> dget res' k = dget res k).
+Proof. exact cube_inflated_response_spec. Qed.
+Print Assumptions C06_cube_inflated_response_spec.
+
+Theorem C06_cube_augmented_response_spec :
+  forall top res ms cm dim0 ty0 drest data cdata sels,
+  exists top' res' ms' cm' dim0' ty0',
+    augmented_response top res ms cm dim0 ty0 drest data cdata sels = JDict top' /\
+    dget top' "result" = Some (JDict res') /\
+    dget res' "counts" = Some (JList data) /\
+    dget res' "measures" = Some (JDict ms') /\ dget ms' "count" = Some (JDict cm') /\
+    dget cm' "data" = Some (JList cdata) /\
+    dget res' "dimensions" = Some (JList (JDict dim0' :: drest)) /\
+    dget dim0' "type" = Some (JDict ty0') /\ dget ty0' "elements" = Some (JList sels) /\
+    (forall k, k <> "result" -> dget top' k = dget top k) /\
+    (forall k, k <> "counts" -> k <> "measures" -> k <> "dimensions" -> dget res' k = dget res k) /\
+    (forall k, k <> "count" -> dget ms' k = dget ms k) /\
+    (forall k, k <> "data" -> dget cm' k = dget cm k) /\
+    (forall k, k <> "type" -> dget dim0' k = dget dim0 k) /\
+    (forall k, k <> "elements" -> dget ty0' k = dget ty0 k).
+Proof. exact cube_augmented_response_spec. Qed.
+Print Assumptions C06_cube_augmented_response_spec.
+
+Theorem C06_gen_cube_Cube___init__ :
+  match src_Cube___init__ with
+  | Some f => forall resp idx tr pop mask,
+      f resp idx tr pop mask
+      = mkPyCube resp (if json_is_none tr then JDict [] else tr) idx
+                 (if json_is_none pop then JInt 0 else pop) mask
+  | None => True end.
+Proof. exact gen_cube_Cube___init__. Qed.
+Print Assumptions C06_gen_cube_Cube___init__.
+
+Theorem C06_gen_cube_Cube__all_dimensions :
+  match src_Cube__all_dimensions, src_Cube__numeric_array_dimension, src_Cube__cube_response with
+  | Some f, Some g1, Some g2 => forall X c numdim res dimsj,
+      g1 X c = POk numdim -> g2 X c = POk (JDict [("result", JDict res)]) ->
+      py_dict_get String.eqb res "dimensions" = Some (JList dimsj) ->
+      f X c = x_from_dicts X (JList (if json_truthy numdim then numdim :: dimsj else dimsj))
+  | _, _, _ => True end.
+Proof. exact gen_cube_Cube__all_dimensions. Qed.
+Print Assumptions C06_gen_cube_Cube__all_dimensions.
+
+Theorem C06_gen_cube_Cube__numeric_array_dimension_counts :
+  match src_Cube__numeric_array_dimension, src_Cube__cube_response with
+  | Some f, Some g => forall X c p more,
+      g X c = POk (count_response p more) -> f X c = POk JNull
+  | _, _ => True end.
+Proof. exact gen_cube_Cube__numeric_array_dimension_counts. Qed.
+Print Assumptions C06_gen_cube_Cube__numeric_array_dimension_counts.
+
+Theorem C06_gen_cube_Cube__all_dimensions_counts :
+  match src_Cube__all_dimensions, src_Cube__cube_response with
+  | Some f, Some g => forall X c p more dimsj,
+      g X c = POk (count_response p more) ->
+      py_dict_get String.eqb more "dimensions" = Some (JList dimsj) ->
+      f X c = x_from_dicts X (JList dimsj)
+  | _, _ => True end.
+Proof. exact gen_cube_Cube__all_dimensions_counts. Qed.
+Print Assumptions C06_gen_cube_Cube__all_dimensions_counts.
+
+Theorem C06_gen_cube_Cube_dimensions :
+  match src_Cube_dimensions, src_Cube__all_dimensions with
+  | Some f, Some g => forall X c dims, g X c = POk dims -> f X c = POk (pds_apparent dims)
+  | _, _ => True end.
+Proof. exact gen_cube_Cube_dimensions. Qed.
+Print Assumptions C06_gen_cube_Cube_dimensions.
+
+Theorem C06_gen_cube_Cube_dimension_types :
+  match src_Cube_dimension_types, src_Cube__all_dimensions with
+  | Some f, Some g => forall X c dims, g X c = POk dims ->
+      f X c = POk (map pd_dimension_type (pds_apparent dims))
+  | _, _ => True end.
+Proof. exact gen_cube_Cube_dimension_types. Qed.
+Print Assumptions C06_gen_cube_Cube_dimension_types.
+
+Theorem C06_gen_cube_Cube_ndim :
+  match src_Cube_ndim, src_Cube__all_dimensions with
+  | Some f, Some g => forall X c vs, g X c = POk (pydims_of vs) ->
+      f X c = POk (Z.of_nat (cube_ndim (map dimd_of vs)))
+  | _, _ => True end.
+Proof. exact gen_cube_Cube_ndim. Qed.
+Print Assumptions C06_gen_cube_Cube_ndim.
+
+Theorem C06_gen_cube_Cube_is_single_filter_col_cube :
+  match src_Cube_is_single_filter_col_cube, src_Cube__cube_response with
+  | Some f, Some g => forall X c res, g X c = POk (JDict [("result", JDict res)]) ->
+      f X c = POk (match py_dict_get String.eqb res "is_single_col_cube" with Some v => v | None => JBool false end)
+  | _, _ => True end.
+Proof. exact gen_cube_Cube_is_single_filter_col_cube. Qed.
+Print Assumptions C06_gen_cube_Cube_is_single_filter_col_cube.
+
+Theorem C06_gen_cube_Cube__ca_as_0th :
+  match src_Cube__ca_as_0th, src_Cube__all_dimensions, src_Cube_is_single_filter_col_cube with
+  | Some f, Some g1, Some g2 => forall X c vs single idx,
+      g1 X c = POk (pydims_of vs) -> g2 X c = POk single -> pc_cube_idx_arg c = idx_arg idx ->
+      f X c = POk (ca_as_0th idx (json_truthy single) (map dimd_of vs))
+  | _, _, _ => True end.
+Proof. exact gen_cube_Cube__ca_as_0th. Qed.
+Print Assumptions C06_gen_cube_Cube__ca_as_0th.
+
+Theorem C06_gen_cube_Cube__slice_idxs :
+  match src_Cube__slice_idxs, src_Cube__all_dimensions, src_Cube__ca_as_0th with
+  | Some f, Some g1, Some g2 => forall X c vs ca0,
+      g1 X c = POk (pydims_of vs) -> g2 X c = POk ca0 ->
+      (ca0 = true -> cube_ndim (map dimd_of vs) <> 0%nat) ->
+      f X c = POk (map Z.of_nat (slice_idxs (map dimd_of vs) ca0))
+  | _, _, _ => True end.
+Proof. exact gen_cube_Cube__slice_idxs. Qed.
+Print Assumptions C06_gen_cube_Cube__slice_idxs.
+
+Theorem C06_gen_cube_Cube_partitions :
+  match src_Cube_partitions, src_Cube__slice_idxs, src_Cube__ca_as_0th with
+  | Some f, Some g1, Some g2 => forall X c idxs ca0,
+      g1 X c = POk idxs -> g2 X c = POk ca0 ->
+      f X c = POk (map (fun k => mkPyFactory c k (pc_transforms_dict c) (pc_population c) (Some ca0)
+                                             (pc_mask_size c)) idxs)
+  | _, _, _ => True end.
+Proof. exact gen_cube_Cube_partitions. Qed.
+Print Assumptions C06_gen_cube_Cube_partitions.
+
+Theorem C06_gen_cube_Cube_partitions_model :
+  match src_Cube_partitions, src_Cube__all_dimensions, src_Cube_is_single_filter_col_cube with
+  | Some f, Some g1, Some g2 => forall X c vs single idx,
+      g1 X c = POk (pydims_of vs) -> g2 X c = POk single -> pc_cube_idx_arg c = idx_arg idx ->
+      let ds := map dimd_of vs in
+      let ca0 := ca_as_0th idx (json_truthy single) ds in
+      f X c = POk (map (fun p => mkPyFactory c (Z.of_nat (pt_idx p)) (pc_transforms_dict c) (pc_population c)
+                                             (Some ca0) (pc_mask_size c))
+                       (partitions ds ca0))
+  | _, _, _ => True end.
+Proof. exact gen_cube_Cube_partitions_model. Qed.
+Print Assumptions C06_gen_cube_Cube_partitions_model.
+
+Theorem C06_gen_cube_Cube_cube_index :
+  match src_Cube_cube_index with
+  | Some f => forall X c, f X c = POk (match pc_cube_idx_arg c with Some z => z | None => 0 end)
+  | None => True end.
+Proof. exact gen_cube_Cube_cube_index. Qed.
+Print Assumptions C06_gen_cube_Cube_cube_index.
+
+Theorem C06_gen_cube_Cube_n_responses :
+  match src_Cube_n_responses, src_Cube__cube_response with
+  | Some f, Some g => forall X c res, g X c = POk (JDict [("result", JDict res)]) ->
+      f X c = POk (dict_get_or res "n" (JInt 0))
+  | _, _ => True end.
+Proof. exact gen_cube_Cube_n_responses. Qed.
+Print Assumptions C06_gen_cube_Cube_n_responses.
+
+Theorem C06_gen_cube_Cube_title :
+  match src_Cube_title, src_Cube__cube_response with
+  | Some f, Some g => forall X c res, g X c = POk (JDict [("result", JDict res)]) ->
+      f X c = POk (dict_get_or res "title" (JStr "Untitled"))
+  | _, _ => True end.
+Proof. exact gen_cube_Cube_title. Qed.
+Print Assumptions C06_gen_cube_Cube_title.
+
+Theorem C06_gen_cube_Cube_name :
+  match src_Cube_name, src_Cube_dimensions with
+  | Some f, Some g => forall X c dims, g X c = POk dims ->
+      f X c = POk (match dims with d :: _ => pd_name d | [] => JNull end)
+  | _, _ => True end.
+Proof. exact gen_cube_Cube_name. Qed.
+Print Assumptions C06_gen_cube_Cube_name.
+
+Theorem C06_gen_cube_Cube_description :
+  match src_Cube_description, src_Cube_dimensions with
+  | Some f, Some g => forall X c dims, g X c = POk dims ->
+      f X c = POk (match dims with d :: _ => pd_description d | [] => JNull end)
+  | _, _ => True end.
+Proof. exact gen_cube_Cube_description. Qed.
+Print Assumptions C06_gen_cube_Cube_description.
+
+Theorem C06_gen_cube_Cube_inflate :
+  match src_Cube_inflate, src_Cube__cube_response, src_Cube__numeric_array_dimension,
+        src_Cube__available_numeric_measures, src_Cube__numeric_measure_references with
+  | Some f, Some g1, Some g2, Some g3, Some g4 => forall X c top res dimsj numdim nums refs,
+      g1 X c = POk (JDict top) -> dget top "result" = Some (JDict res) ->
+      dget res "dimensions" = Some (JList dimsj) ->
+      g2 X c = POk numdim -> g3 X c = POk nums -> g4 X c = POk (JDict refs) ->
+      f X c = match inflate_name refs nums with
+              | Some name =>
+                  POk (rebuilt_cube c (if json_truthy numdim then JDict top
+                                       else inflated_response top res dimsj (inflate_alias refs nums) name))
+              | None => PErr EAttr
+              end
+  | _, _, _, _, _ => True end.
+Proof. exact gen_cube_Cube_inflate. Qed.
+Print Assumptions C06_gen_cube_Cube_inflate.
+
+Theorem C06_gen_cube_Cube_augment_response :
+  match src_Cube_augment_response, src_Cube__cube_response with
+  | Some f, Some g => forall X c top res cs dim0 drest ty0 oels ms cm cd stop sres scs sdim0 sdrest sty0 sels,
+      g X c = POk (JDict top) -> dget top "result" = Some (JDict res) ->
+      dget res "counts" = Some (JList cs) -> dget res "dimensions" = Some (JList (JDict dim0 :: drest)) ->
+      dget dim0 "type" = Some (JDict ty0) -> dget ty0 "elements" = Some (JList oels) ->
+      dget res "measures" = Some (JDict ms) -> dget ms "count" = Some (JDict cm) ->
+      dget cm "data" = Some (JList cd) ->
+      dget stop "result" = Some (JDict sres) -> dget sres "counts" = Some (JList scs) ->
+      dget sres "dimensions" = Some (JList (JDict sdim0 :: sdrest)) ->
+      dget sdim0 "type" = Some (JDict sty0) -> dget sty0 "elements" = Some (JList sels) ->
+      f X c (JDict stop) =
+      if Z.eqb (py_len cs) (py_len scs) then POk c else
+      pbind (aug_values oels) (fun values => pbind (aug_positions sels values) (fun positions =>
+      pbind (aug_fill (py_len scs) positions cs) (fun data =>
+      pbind (aug_fill (py_len scs) positions cd) (fun cdata =>
+      POk (rebuilt_cube c (augmented_response top res ms cm dim0 ty0 drest data cdata sels))))))
+  | _, _ => True end.
+Proof. exact gen_cube_Cube_augment_response. Qed.
+Print Assumptions C06_gen_cube_Cube_augment_response.
+
+Theorem C06_gen_cube_CubeSet___init__ :
+  match src_CubeSet___init__ with
+  | Some f => forall resps trs pop mb, f resps trs pop mb = mkPyCubeSet resps trs pop mb
+  | None => True end.
+Proof. exact gen_cube_CubeSet___init__. Qed.
+Print Assumptions C06_gen_cube_CubeSet___init__.
+
+Theorem C06_gen_cube_CubeSet__is_multi_cube :
+  match src_CubeSet__is_multi_cube with
+  | Some f => forall X s, f X s = POk (is_multi_cube (List.length (cs_cube_responses s)))
+  | None => True end.
+Proof. exact gen_cube_CubeSet__is_multi_cube. Qed.
+Print Assumptions C06_gen_cube_CubeSet__is_multi_cube.
+
+Theorem C06_gen_cube_CubeSet__cubes :
+  match src_CubeSet__cubes, src_CubeSet__is_multi_cube, src_CubeSet__is_numeric_measure,
+        src_Cube__cube_response, src_Cube_is_single_filter_col_cube, src_Cube_augment_response,
+        src_Cube_inflate with
+  | Some f, Some gm, Some gn, Some gR, Some gS, Some gA, Some gI => forall X s multi numeric,
+      gm X s = POk multi -> gn X s = POk numeric ->
+      f X s = cubeset_loop (gR X) (gS X) (gA X) (gI X) multi numeric s None 0 (cs_cube_responses s)
+  | _, _, _, _, _, _, _ => True end.
+Proof. exact gen_cube_CubeSet__cubes. Qed.
+Print Assumptions C06_gen_cube_CubeSet__cubes.
+
+Theorem C06_gen_cube_CubeSet__is_numeric_measure :
+  match src_CubeSet__is_numeric_measure, src_Cube_ndim with
+  | Some f, Some g => forall X s r0 rest, cs_cube_responses s = r0 :: rest ->
+      f X s = if is_multi_cube (List.length (cs_cube_responses s))
+              then pbind (g X (mkPyCube r0 (JDict []) None (JInt 0) 0)) (fun n => POk (Z.eqb n 0))
+              else POk false
+  | _, _ => True end.
+Proof. exact gen_cube_CubeSet__is_numeric_measure. Qed.
+Print Assumptions C06_gen_cube_CubeSet__is_numeric_measure.
+
+Theorem C06_gen_cube_CubeSet_n_responses :
+  match src_CubeSet_n_responses, src_CubeSet__cubes, src_Cube_n_responses with
+  | Some f, Some g1, Some g2 => forall X s c0 rest, g1 X s = POk (c0 :: rest) -> f X s = g2 X c0
+  | _, _, _ => True end.
+Proof. exact gen_cube_CubeSet_n_responses. Qed.
+Print Assumptions C06_gen_cube_CubeSet_n_responses.
+
+Theorem C06_gen_cube_CubeSet_name :
+  match src_CubeSet_name, src_CubeSet__cubes, src_Cube_name with
+  | Some f, Some g1, Some g2 => forall X s c0 rest, g1 X s = POk (c0 :: rest) -> f X s = g2 X c0
+  | _, _, _ => True end.
+Proof. exact gen_cube_CubeSet_name. Qed.
+Print Assumptions C06_gen_cube_CubeSet_name.
+
+Theorem C06_gen_cube_CubeSet_description :
+  match src_CubeSet_description, src_CubeSet__cubes, src_Cube_description with
+  | Some f, Some g1, Some g2 => forall X s c0 rest, g1 X s = POk (c0 :: rest) -> f X s = g2 X c0
+  | _, _, _ => True end.
+Proof. exact gen_cube_CubeSet_description. Qed.
+Print Assumptions C06_gen_cube_CubeSet_description.
+
+Theorem C06_gen_cube_CubeSet_missing_count :
+  match src_CubeSet_missing_count, src_CubeSet__cubes, src_Cube_missing with
+  | Some f, Some g1, Some g2 => forall X s c0 rest, g1 X s = POk (c0 :: rest) -> f X s = g2 X c0
+  | _, _, _ => True end.
+Proof. exact gen_cube_CubeSet_missing_count. Qed.
+Print Assumptions C06_gen_cube_CubeSet_missing_count.
+
+Theorem C06_gen_cube_CubeSet_partition_sets :
+  match src_CubeSet_partition_sets, src_CubeSet__cubes, src_Cube_partitions with
+  | Some f, Some g1, Some g2 => forall X s cubes (P : pycube -> list pyfactory),
+      g1 X s = POk cubes -> (forall c, In c cubes -> g2 X c = POk (P c)) ->
+      f X s = POk (zipn (map P cubes))
+  | _, _, _ => True end.
+Proof. exact gen_cube_CubeSet_partition_sets. Qed.
+Print Assumptions C06_gen_cube_CubeSet_partition_sets.
+
+Theorem C06_gen_cube_CubeSet_is_ca_as_0th :
+  match src_CubeSet_is_ca_as_0th, src_CubeSet__cubes, src_Cube_dimension_types with
+  | Some f, Some g1, Some g2 => forall X s c0 rest t0 ts,
+      g1 X s = POk (c0 :: rest) -> g2 X c0 = POk (t0 :: ts) ->
+      f X s = POk (is_multi_cube (List.length (cs_cube_responses s)) && dtype_eqb t0 TCaSubvar)
+  | _, _, _ => True end.
+Proof. exact gen_cube_CubeSet_is_ca_as_0th. Qed.
+Print Assumptions C06_gen_cube_CubeSet_is_ca_as_0th.
+
+Theorem C06_gen_cube_CubeSet_can_show_pairwise :
+  match src_CubeSet_can_show_pairwise, src_CubeSet__cubes, src_Cube_dimension_types, src_Cube_ndim with
+  | Some f, Some g1, Some g2, Some g3 => forall X s cubes (T : pycube -> list dtype) (N : pycube -> Z),
+      g1 X s = POk cubes ->
+      (forall c, In c (tl cubes) -> g2 X c = POk (T c) /\ g3 X c = POk (N c)) ->
+      f X s = POk (if Z.ltb (py_len cubes) 2 then false
+                   else forallb (fun c => forallb (fun t => py_in dtype_eqb t pairwise_types)
+                                                  (py_list_slice_from (T c) (-2))
+                                          && Z.geb (N c) 2) (tl cubes))
+  | _, _, _, _ => True end.
+Proof. exact gen_cube_CubeSet_can_show_pairwise. Qed.
+Print Assumptions C06_gen_cube_CubeSet_can_show_pairwise.
+
+End GenAgreeCube_C06.
+(*END GenAgreeCube_C06*)
